@@ -313,10 +313,47 @@ fn model(
     ModelBlob { tree, pdf }
 }
 
+/// `VoiceSpec::body` flag bits: the voice is the one of `body & BODY_MASK`, except that one leaf of its LF0 /
+/// LPF trees names a PDF that does not exist. Such a voice loads; utterances whose labels reach that leaf
+/// panic in the middle of `Engine::generator` (after the spectrum stream is done), all others synthesize.
+pub const DEFECT_LF0: u64 = 1 << 40;
+pub const DEFECT_LPF: u64 = 1 << 41;
+pub const BODY_MASK: u64 = (1 << 40) - 1;
+
+/// Point the highest-numbered leaf (>= 2) of a tree section at a PDF index that does not exist.
+fn break_one_leaf(tree: &mut Vec<u8>, prefix: &str) {
+    let text = String::from_utf8_lossy(tree).to_string();
+    let pat = format!("{}_s", prefix);
+    let mut best: Option<(usize, usize, usize)> = None; // (start of digits, len of digits, n)
+    let mut from = 0;
+    while let Some(p) = text[from..].find(&pat) {
+        let at = from + p + pat.len();
+        // state digits, '_', leaf digits
+        let rest = &text[at..];
+        let sd = rest.chars().take_while(|c| c.is_ascii_digit()).count();
+        if sd > 0 && rest[sd..].starts_with('_') {
+            let ld = rest[sd + 1..].chars().take_while(|c| c.is_ascii_digit()).count();
+            if ld > 0 {
+                let n: usize = rest[sd + 1..sd + 1 + ld].parse().unwrap_or(0);
+                if n >= 2 && best.map(|b| n > b.2).unwrap_or(true) {
+                    best = Some((at + sd + 1, ld, n));
+                }
+            }
+        }
+        from = at;
+    }
+    if let Some((start, len, n)) = best {
+        let mut t = text[..start].to_string();
+        t.push_str(&(n + 50).to_string());
+        t.push_str(&text[start + len..]);
+        *tree = t.into_bytes();
+    }
+}
+
 /// Emit a complete voice file for `spec`.
 pub fn build(spec: &VoiceSpec, pool: &QuestionPool) -> Vec<u8> {
     let m = &spec.meta;
-    let mut r = Rng::new(crate::rng::mix(&[0x766f_6963_65, spec.body]));
+    let mut r = Rng::new(crate::rng::mix(&[0x766f_6963_65, spec.body & BODY_MASK]));
     let mut data: Vec<u8> = Vec::new();
     let mut pos: Vec<(String, usize, usize)> = Vec::new();
     let mut put = |data: &mut Vec<u8>, key: String, blob: &[u8]| {
@@ -384,7 +421,10 @@ pub fn build(spec: &VoiceSpec, pool: &QuestionPool) -> Vec<u8> {
             "LF0" => Box::new(move |r: &mut Rng, i: usize| if i == 0 { if r.chance(0.15) { r.uniform(3.2, 4.0) } else { r.uniform(4.2, 5.6) } } else { r.uniform(-0.02, 0.02) }),
             _ => Box::new(move |r: &mut Rng, i: usize| if i == lpf_len / 2 { r.uniform(0.8, 1.0) } else { r.uniform(-0.05, 0.05) }),
         };
-        let blob = model(&mut r, pool, &n.to_lowercase(), &states, len * nwin, is_msd(n), &*mean, (0.02, 0.6));
+        let mut blob = model(&mut r, pool, &n.to_lowercase(), &states, len * nwin, is_msd(n), &*mean, (0.02, 0.6));
+        if (*n == "LF0" && spec.body & DEFECT_LF0 != 0) || (*n == "LPF" && spec.body & DEFECT_LPF != 0) {
+            break_one_leaf(&mut blob.tree, &n.to_lowercase());
+        }
         put(&mut data, format!("STREAM_PDF[{}]", n), &blob.pdf);
         put(&mut data, format!("STREAM_TREE[{}]", n), &blob.tree);
     }
